@@ -78,12 +78,12 @@ func (e *Engine) newInterp() *interpreter {
 }
 
 // RunPath executes harness fn (a niladic function) along prefix.
-func (e *Engine) RunPath(fn *ssa.Function, prefix string, model map[string]uint64, opts PathOpts) (res *PathResult) {
+func (e *Engine) RunPath(fn *ssa.Function, prefix string, model map[string]uint64, intModel map[string]string, opts PathOpts) (res *PathResult) {
 	t0 := time.Now()
 	s := e.Solver
 	s.Reset()
 	s0sat, s0unsat, s0unk, s0time := s.NSat, s.NUnsat, s.NUnknown, s.Time
-	c := newPathCtx(s, prefix, model)
+	c := newPathCtx(s, prefix, model, intModel)
 	if opts.MaxSteps > 0 {
 		c.MaxSteps = opts.MaxSteps
 	}
